@@ -203,6 +203,8 @@ class V:
 def stmt_variants():
     """fault kind -> variants (statement-style faults: insert at a site)"""
     T, S_, F = TYPE_HELPER, SUB_HELPER, FUNC_HELPER
+    S3 = ['SUB zqs3 (t AS STRING, big AS LONG, n AS INTEGER)', 'END SUB']
+    F3 = ['FUNCTION zqf3% (t AS STRING, big AS LONG, n AS INTEGER)', '  zqf3% = n', 'END FUNCTION']
     K = {}
     K['assign-mismatch'] = [
         V('int=str', 'zqa% = "s"', TM()), V('str=int', 'zqa$ = 1', TM()),
@@ -323,6 +325,9 @@ def stmt_variants():
         V('restore', 'RESTORE zqnolabel', LND), V('on-error', 'ON ERROR GOTO zqnolabel', LND),
         V('goto-lineno', 'GOTO 9999', LND), V('return', 'RETURN zqnolabel', LND),
         V('gosub-lineno', 'GOSUB 9998', LND),
+        # the boundary line number 0 (falsy in Python)
+        V('goto-lineno-0', 'GOTO 0', LND), V('gosub-lineno-0', 'GOSUB 0', LND),
+        V('return-lineno-0', 'RETURN 0', LND), V('restore-lineno-0', 'RESTORE 0', LND),
     ]
     in_routine = lambda c: c['routine'][0] != 'main'   # noqa
     in_main = lambda c: c['routine'][0] == 'main'      # noqa
@@ -361,6 +366,13 @@ def stmt_variants():
         V('function-none', 'zqa% = zqf%', C('ARGUMENT_COUNT_MISMATCH'), append=F),
         V('function-in-print', 'PRINT zqf%(1, 2, 3)', C('ARGUMENT_COUNT_MISMATCH'), append=F),
         V('builtin', 'PRINT LEN("a", "b")', C('ARGUMENT_COUNT_MISMATCH')),
+        # wrong count where the remaining arguments no longer line up with the parameter types
+        V('sub-dropped-first', 'zqs3 70000, zqc%', C('ARGUMENT_COUNT_MISMATCH'), pre=['zqc% = 1'], append=S3),
+        V('call-dropped-middle', 'CALL zqs3(zqc%, "t")', C('ARGUMENT_COUNT_MISMATCH'), pre=['zqc% = 1'], append=S3),
+        V('sub-extra-last', 'zqs3 "a", zqb&, zqc%, "x"', C('ARGUMENT_COUNT_MISMATCH'),
+          pre=['zqb& = 1', 'zqc% = 1'], append=S3),
+        V('function-dropped-first', 'zqa% = zqf3%(70000, zqc%)', C('ARGUMENT_COUNT_MISMATCH'),
+          pre=['zqc% = 1'], append=F3),
     ]
     K['array-rank'] = [
         V('fewer', 'zqar(1) = 1', C('WRONG_NUMBER_OF_DIMENSIONS'), pre=['DIM zqar(3, 3) AS INTEGER']),
